@@ -24,6 +24,8 @@ var registry = map[string]entry{
 	"C05": {"model_checking", checks.C05},
 	"C18": {"model_checking", checks.C18},
 	"C17": {"model_checking", checks.C17},
+	"C15": {"model_checking", checks.C15},
+	"C16": {"model_checking", checks.C16},
 	"C14": {"model_checking", checks.C14},
 	"C06": {"model_checking", checks.C06},
 	"C07": {"translation_validation", checks.C07},
